@@ -15,6 +15,9 @@ void harness(void) {
   uint8_t out[MAXTOK * (TOKCAP + 1)];
   in_bytes(in, LEN);
   for (int i = 0; i < LEN; i++) ASSUME(in[i] != 0);
+#ifdef FIRST
+  in[0] = FIRST; /* cell: the first byte is concrete */
+#endif
 #ifdef QUOTES
   for (int i = 0; i < LEN; i++) in[i] = QUOTES; /* concrete cell: the quote character is given by the cell */
 #endif
